@@ -173,6 +173,15 @@ func (i *Interface) checkCache(key string) record.Record {
 	if err == nil {
 		r, ok := cacheVal.(record.Record)
 		if ok {
+			// Do not serve records that were deleted or have expired since
+			// they were cached, fall back to the storage instead.
+			r.Lock()
+			valid := r.Meta().CheckValidity()
+			r.Unlock()
+			if !valid {
+				i.cache.Remove(key)
+				return nil
+			}
 			return r
 		}
 	}
